@@ -123,6 +123,7 @@ func TestC29(t *testing.T) {
 
 	kfBreak, kfBreakOK := kf.Known("C29", "break-out-of-try")
 	kfS255, kfS255OK := kf.Known("C29", "shared-slot-255-assert")
+	kfDead, kfDeadOK := kf.Known("C29", "dead-branch-mention-unshares")
 
 	rt.Check(t, rec, "model", 3000, 50000, func(t *rapid.T) {
 		root := genProgram(t)
@@ -131,6 +132,12 @@ func TestC29(t *testing.T) {
 		if disc != "" {
 			rec.Case(false, src)
 			rec.Label("discard_" + disc)
+			return
+		}
+		if kfDeadOK && deadBranchChangesSharing(root) {
+			rec.Case(false, src)
+			rec.Excluded("dead-branch-mention-unshares")
+			rec.Known(kfDead.What)
 			return
 		}
 		if f.jumpOutOfTry {
